@@ -850,3 +850,30 @@ def result_matches(an, origin_pred):
         err = an.reach([arms['Err']], ('normal',), avoid=[arms['Ok']])
         out.append((blk, okr - err, err - okr))
     return out
+
+
+def sources_across(prog, body, op, depth=0, deep=False):
+    """like sources(), but a value captured by the coroutine / closure of a *non-public* function (an extracted async
+    helper cannot be inlined) is followed into the callers of that function: ('upvar', name) of such a body is replaced by
+    the origins of the corresponding argument at every call site (up to 3 levels).  Terminal upvars keep their kind and
+    gain the owning body: ('upvar', name, body path)."""
+    an = prog.an(body)
+    out = set()
+    for s in sources(an, op, deep=deep):
+        if s[0] != 'upvar' or depth >= 3:
+            out.add(s if s[0] != 'upvar' else ('upvar', s[1], body.path)); continue
+        parent = prog.bodies.get(body.j.get('parent') or '')
+        base = s[1].split('.')[0]
+        if parent is None or parent.j.get('vis') == 'pub' or not body.is_coroutine:
+            out.add(('upvar', s[1], body.path)); continue
+        names = parent.local_names()
+        idx = [l for l in range(1, parent.arg_count + 1) if names.get(l) == base]
+        sites = [(c, bb) for c, bb, k in prog.callers_of(parent.path) if k == 'call']
+        if len(idx) != 1 or not sites:
+            out.add(('upvar', s[1], body.path)); continue
+        for c, bb in sites:
+            cb = prog.bodies[c]
+            args = cb.blocks[bb].term.args
+            if idx[0] - 1 < len(args):
+                out |= sources_across(prog, cb, args[idx[0] - 1], depth + 1, deep=True)
+    return out
